@@ -79,8 +79,10 @@ func (c *RedialPacketConn) dialLoop() {
 // packets in the receive queue, and takes packets from the send queue and calls
 // WriteTo on them, making the current net.PacketConn active.
 func (c *RedialPacketConn) exchange(conn net.PacketConn) {
-	readErrCh := make(chan error)
-	writeErrCh := make(chan error)
+	// Buffered: only one of the two errors is ever received, and a side that
+	// fails after the other one must not block forever on its send.
+	readErrCh := make(chan error, 1)
+	writeErrCh := make(chan error, 1)
 
 	go func() {
 		defer close(readErrCh)
